@@ -93,6 +93,12 @@ def classify(cfg, cands, ballots, symptom, rng_events=()):
     plus the symptom), or None.  Keys correspond to known_findings.json entries."""
     r = cfg["rule"]
     st = symptom  # exception type name, or 'seatcount' / 'round-budget' / 'call-budget'
+    if r in rules.RANKING_RULES and st == "TypeError" and any(
+            rr and sc and set(sc) - {c for g in rr for c in g} for rr, w, sc in ballots):
+        # a ballot with a ranking AND scores for a candidate it does not rank: when its ranked candidates have all been elected
+        # or eliminated, remove_cand keeps it (it still has scores) without a ranking, and the next round of a ranking rule
+        # refuses the profile it produced itself ("Ballots must have rankings")
+        return "mixed-ballot-ranking-exhausted"
     if r in rules.STV_FAMILY or r == "Alaska":
         if any(e.get("short") for e in rng_events) and st == "ValueError":
             return "random-transfer-short"
